@@ -1,5 +1,73 @@
-(* C38: HTTP/2 responses carry exactly the handler's response.  Property theorems only. *)
+(* C38: HTTP/2 responses carry exactly the handler's response.  Property theorems only.
+   frames_of e ops (model/H2Resp.v) = the frames bfe_http2 writes on a response stream when the handler performs the
+   operations ops (Header().Set/Add, WriteHeader, Write, Flush, in any order) and returns; e says whether the request
+   was HEAD, the size of the response bufio.Writer and the keys of HopHeaders.  f_end f = frame f carries END_STREAM.
+   The model describes the code after the two repairs recorded in known_findings/C38.txt. *)
 From Coq Require Import List ZArith Bool.
-From Bfe Require Import lib.Val lib.Bytes model.H2Resp run.RunC38.
+From Bfe Require Import lib.Val lib.Bytes model.H2Resp run.RunC38 proofs.H2RespProofs.
 Import ListNotations.
 Open Scope Z_scope.
+
+(* For every request kind, buffer size, hop list and handler script: the frame list is pre ++ [l] where no frame of
+   pre carries END_STREAM and l does -- END_STREAM exactly once, on the last frame. *)
+Theorem C38_end_stream_exactly_once_and_last : forall e ops,
+  exists pre l, frames_of e ops = pre ++ [l] /\ (forall f, In f pre -> f_end f = false) /\ f_end l = true.
+Proof. exact end_stream_exactly_once_and_last. Qed.
+Print Assumptions C38_end_stream_exactly_once_and_last.
+
+(* The body: the DATA payloads, concatenated, are exactly the bytes of the Write calls that returned nil (res has one
+   0/1 entry per Write, 0 = nil error; Writes are refused for 1xx/204/304 and beyond a declared Content-Length),
+   and a HEAD response carries no DATA bytes at all. *)
+Theorem C38_body_exact : forall e ops fr res s,
+  run_handler e ops = (fr, res, s) ->
+  length res = length (write_payloads ops) /\
+  concat (map f_data fr) = if e_head e then [] else accepted (write_payloads ops) res.
+Proof. exact body_exact. Qed.
+Print Assumptions C38_body_exact.
+
+(* Header fields: in every HEADERS frame of the response -- the response headers and the trailers -- every field name
+   is lower case (no_upper) and is none of connection, keep-alive, proxy-connection, transfer-encoding, upgrade
+   (fields_ok), whatever the handler put into its header map through Header().Set/Add, provided the HopHeaders list
+   contains the canonical spelling of these five names (hop_ok; Example C38_hop_ok_real: true of the real list). *)
+Theorem C38_connection_specific_removed : forall e ops,
+  hop_ok (e_hop e) ->
+  forall es fl, In (FH es fl) (frames_of e ops) -> fields_ok fl = true.
+Proof. exact connection_specific_removed. Qed.
+Print Assumptions C38_connection_specific_removed.
+
+Example C38_hop_ok_real :
+  hop_ok [ [67;111;110;110;101;99;116;105;111;110]; [75;101;101;112;45;65;108;105;118;101];
+           [80;114;111;120;121;45;65;117;116;104;101;110;116;105;99;97;116;101];
+           [80;114;111;120;121;45;65;117;116;104;111;114;105;122;97;116;105;111;110];
+           [80;114;111;120;121;45;67;111;110;110;101;99;116;105;111;110];
+           [84;114;97;110;115;102;101;114;45;69;110;99;111;100;105;110;103]; [85;112;103;114;97;100;101] ].
+Proof. exact hop_ok_real. Qed.
+
+(* Status and frame order: the first frame of every response is a HEADERS frame whose first field is
+   :status = the status the handler chose (spec_status: the code of the first WriteHeader unless a Write or Flush came
+   first, else 200; status_field c = [(":status", decimal c)] for c <> 0); and every frame between that first HEADERS
+   and the last frame is a DATA frame -- so a trailers HEADERS frame can only be the last frame, after the whole body. *)
+Theorem C38_status_first_trailers_after_body : forall e ops,
+  exists es fl rest,
+    frames_of e ops = FH es (status_field (spec_status ops) ++ fl) :: rest
+    /\ (forall f, In f (removelast rest) -> is_FH f = false).
+Proof. exact status_first_trailers_last. Qed.
+Print Assumptions C38_status_first_trailers_after_body.
+
+(* Non-vacuity / regression witnesses.  Trailer declared but never set (before the repair: HEADERS, DATA and no
+   END_STREAM at all): the stream ends with an empty DATA frame. *)
+Example C38_unset_trailer_ends_stream :
+  let ops := [OSet b_Trailer b_Foo; OWrite b_hi] in
+  exists fl, frames_of env_get ops = [FH false fl; FD false b_hi; FD true []].
+Proof. exact unset_trailer_witness. Qed.
+(* Declared and set trailers come after the body, END_STREAM on the trailers HEADERS. *)
+Example C38_trailers_after_body_example :
+  let ops := [OSet b_Trailer b_Foo; OWrite b_hi; OSet b_Foo b_close] in
+  exists fl, frames_of env_get ops = [FH false fl; FD false b_hi; FH true [(to_lower b_Foo, b_close)]].
+Proof. exact trailers_witness. Qed.
+(* A declared trailer named Connection (before the repair: sent as `connection: close`) is not sent. *)
+Example C38_connection_trailer_dropped :
+  let ops := [OSet b_Trailer b_Connection; OWrite b_hi; OSet b_Connection b_close] in
+  exists fl, frames_of env_get ops = [FH false fl; FD false b_hi; FD true []]
+  /\ mem_bytes (to_lower b_Connection) (map fst fl) = false.
+Proof. exact conn_trailer_witness. Qed.
